@@ -236,7 +236,7 @@ def run_callables(w, batch) -> None:
                 args = tuple(Tok("p{}".format(i)) for i in range(npos))
                 kwargs = {k: Tok("k_" + k) for k in kws}
                 try:
-                    sig.bind(*args, **kwargs)
+                    bare(*args, **kwargs)  # Python itself decides whether the call can be bound
                 except TypeError:
                     continue
                 if kind == "pget" and (args or kwargs):
